@@ -582,8 +582,8 @@ def check(run, replay):
                 for h in heur:
                     for to in (True, False):
                         cases.append(dict(c, heuristic=h, target_only=to, entry=c.get("entry", "mrg")))
-        nframes = 26 if run.tier == "quick" else 150
-        nbig = 2 if run.tier == "quick" else 10
+        nframes = 36 if run.tier == "quick" else 160
+        nbig = 3 if run.tier == "quick" else 12
         for i in range(nframes):
             fr = gen_frame(run.rng, run.tier, big=(i < nbig))
             kinds = fr.pop("kinds")
